@@ -179,7 +179,7 @@ func (w *World) violate(prop, key, format string, a ...any) {
 	// violation (the monitors themselves exempt a victim from completeness)
 	if len(w.p.Faults) > 0 && w.viol["C18"] == nil {
 		switch prop {
-		case "C01", "C02", "C04", "C05", "C06", "C07":
+		case "C01", "C02", "C04", "C05", "C06", "C07", "C08":
 			w.viol["C18"] = &runner.Violation{Key: "C18/" + prop + "/" + key, Msg: "with fault " + faultDesc(w.p.Faults) + ": " + fmt.Sprintf(format, a...)}
 			w.order = append(w.order, "C18")
 		}
@@ -354,7 +354,7 @@ func (w *World) run() {
 	}
 	k.SetFaults(p.Faults)
 	w.lcSnap = map[int]map[string]int{}
-	w.udp = &udpState{ids: map[int]int{}, handled: map[int]int{}, lastRecv: map[string]int{}, matched: map[int]bool{}, readBuf: p.Cfg.ReadBuf}
+	w.udp = &udpState{ids: map[int]int{}, handled: map[int]int{}, lastRecv: map[string]int{}, readBuf: p.Cfg.ReadBuf}
 	if w.udp.readBuf <= 0 {
 		w.udp.readBuf = 65536
 	}
